@@ -177,7 +177,7 @@ func (m *Machine) intrinsic(fn *ssa.Function, args []Value, caller *frame) (Valu
 		if r.op == OpConst {
 			return m.st.Const(64, uint64(int64(utf8.RuneLen(rune(int32(r.k)))))), true
 		}
-		if o, ok := m.origin[r]; ok {
+		if o, ok := m.getOrigin(r); ok {
 			return m.st.Const(64, uint64(len(o))), true
 		}
 	}
@@ -432,8 +432,8 @@ func (m *Machine) runeToLower(r *Term) *Term {
 		isUp := m.inRange(r, 'A', 'Z')
 		res := st.Ite(isUp, st.Bin(OpAdd, r, st.Const(32, 32)), r)
 		if res != r {
-			if _, ok := m.origin[res]; !ok {
-				m.origin[res] = []*Term{st.Trunc(res, 8)}
+			if _, ok := m.getOrigin(res); !ok {
+				m.setOrigin(res, []*Term{st.Trunc(res, 8)})
 			}
 		}
 		return res
